@@ -59,19 +59,22 @@ theorem mod_wrap (a d : Nat) (h : a < 2 * d) : a % d = if a < d then a else a - 
   · exact Nat.mod_eq_of_lt ‹_›
   · rw [Nat.mod_eq_sub_mod (by omega)]; exact Nat.mod_eq_of_lt (by omega)
 
-/-- `mod_add` computes `(sig + incr) % mod` for `sig < mod`, `incr ≤ max_incr`, `incr ≤ mod`.
-    (For `mod < incr` and `mod` not a power of two it does not: candidate defect F11; the allocator
-    never gets there because an accepted count is at most `entries`.) -/
-theorem modAdd_eq (sig mod incr mx : Nat) (hs : sig < mod) (hi : incr ≤ mx) (him : incr ≤ mod) :
+/-- `mod_add` computes `(sig + incr) % mod` for `sig < mod`, `incr ≤ max_incr` (any `max_incr`, also
+    above `mod`: the case table maps `mod + i` to `i % mod`, functions.py:68). -/
+theorem modAdd_eq' (sig mod incr mx : Nat) (hs : sig < mod) (hi : incr ≤ mx) :
     modAdd sig mod incr mx = (sig + incr) % mod := by
   unfold modAdd
   by_cases hp : isPow2 mod = true
   · rw [if_pos hp]
     exact and_pred_eq_mod mod (by omega) (by simpa [isPow2] using hp) _
-  · rw [if_neg hp, mod_wrap _ _ (by omega)]
+  · rw [if_neg hp]
     by_cases h : sig + incr < mod
-    · rw [if_pos h, if_neg (by omega)]
-    · rw [if_neg h, if_pos (by omega)]
+    · rw [if_neg (by omega), Nat.mod_eq_of_lt h]
+    · rw [if_pos (by omega)]
+      exact (Nat.mod_eq_sub_mod (by omega)).symm
+
+theorem modAdd_eq (sig mod incr mx : Nat) (hs : sig < mod) (hi : incr ≤ mx) (_him : incr ≤ mod) :
+    modAdd sig mod incr mx = (sig + incr) % mod := modAdd_eq' sig mod incr mx hs hi
 
 /-! ### widths -/
 
